@@ -13,7 +13,13 @@ from pyvc.api import UNITS, unit
 from pyvc.values import NamedTuple, V
 
 LEVEL = "proof"
-BOUNDED = [{"name": "gaussian_interval_rows_aligned", "script": "c15_gaussian.py", "timeout": 2400}]
+BOUNDED = [
+    {"name": "gaussian_interval_rows_aligned", "script": "c15_gaussian.py", "timeout": 2400},
+    # differential test of the theory entries behind the aggregate proofs (symbolic result evaluated on concrete elections
+    # vs. the real pandas run): a test of assumptions, not a proof
+    {"name": "theory_conformance_aggregates", "script": "conformance_aggregates.py", "python": "vt", "tiers": ["quick"], "args": ["--n", "4"], "timeout": 1200},
+    {"name": "theory_conformance_aggregates", "script": "conformance_aggregates.py", "python": "vt", "tiers": ["thorough"], "args": ["--n", "40"], "timeout": 3000},
+]
 MRH = "elexmodel.handlers.data.ModelResults.ModelResultsHandler"
 ASSUMPTIONS = C03.ASSUMPTIONS + [
     "gaussian estimator: units gaussian.aggregate_intervals.* (defined in contracts/C15.py) prove the alignment of its interval rows and the bound formula with GaussianModel.fit under the contract proved in C15; the bounded end-to-end companion is kept",
